@@ -1575,6 +1575,40 @@ func (s *storeImpl) exec(toks []string) (out string) {
 	case "count":
 		return fmt.Sprintf("count=%d", c.c.Count())
 	case "snapshot":
+		if len(rest) == 4 && rest[2] == "with" {
+			// a snapshot during which the open transaction rest[3] commits: after the chunk states are written,
+			// while the recorder is still installed (the commit ends up in the recorded log of the file)
+			h, ok := c.txns[rest[3]]
+			if !ok {
+				return "bad-op"
+			}
+			delete(c.txns, rest[3])
+			c.drain()
+			before := len(c.emitted)
+			res := ""
+			column.VerifSetYield(func(p string) {
+				if p == "s:written" && res == "" {
+					h.lines <- "\x00commit"
+					res = <-h.done
+				}
+			})
+			var b bytes.Buffer
+			err := c.c.Snapshot(&b)
+			column.VerifSetYield(nil)
+			if strings.HasPrefix(res, "panic") {
+				return res
+			}
+			if err != nil || res == "" {
+				return "err"
+			}
+			c.drain()
+			s.snaps[rest[1]] = b.Bytes()
+			var chunks []string
+			for _, e := range c.emitted[before:] {
+				chunks = append(chunks, strconv.Itoa(int(e.chunk)))
+			}
+			return fmt.Sprintf("ok committed emitted=%d chunks=%s", len(c.emitted)-before, strings.Join(chunks, ",")) + c.trigDelta()
+		}
 		if len(rest) != 2 {
 			return "bad-op"
 		}
